@@ -488,6 +488,7 @@ def r6_components(program, rep):
               ["rig.place_and_route.place.utils"])
     rep.guard("C04-R2", C04.r2_default, program, rep)
     rep.guard("C04-R3", C04.r3_ranges, program, rep)
+    rep.guard("C04-R3", C04.r3_upcheck_all_members, program, rep)
     rep.guard("C04-R5", C04.r5_contract, program, rep)
     rep.guard("C03-R2", C03.r2_repair, program, rep)
     rep.guard("C03-R5", C03.r5_reconnect, program, rep)
